@@ -374,7 +374,9 @@ def run(R, env):
                     continue
                 f2 = []
                 ok2, off2 = guarded(c_, Guard("same-receiver", boolean=recv_guard), prog, 1, f2)
-                if not (ok2 and f2):
+                if not (ok2 and (f2 or _se3(c_))):
+                    # (f2 empty: the comparison sits in a nested closure, e.g. `.and_then(|p| check(p))`; not vacuous as
+                    # long as the closure can answer Ok when nothing is assumed)
                     continue
                 # the closure drives ids.map(closure).collect::<Result<_, _>>() whose Err is propagated: in the
                 # handler itself, or in a helper that returns the collected Result and is `?`-ed by the handler
@@ -425,6 +427,16 @@ def run(R, env):
                 if norm(u) == norm(("field", ("field", ("elem",), "amount"), "denom")) and v[0] == "field" and v[2] == "denom" and v[1][0] == "field" and v[1][2] == "amount":
                     first = v[1][1]
                     is_first = (first[0] == "payload" and shared.unwrap_payload(first)[0] == "call" and shared.unwrap_payload(first)[1].endswith("slice::first") and norm(shared.unwrap_payload(first)[2][0]) == norm(coll)) or (first[0] == "call" and first[1] == "std::ops::Index::index" and norm(first[2][0]) == norm(coll) and const_int(first[2][1]) == 0)
+                    # `let Some((first, others)) = packets.split_first()`: others.iter().all(|p| p.denom == first.denom)
+                    def split_of(x_, idx_):
+                        if x_[0] == "field" and x_[2] == idx_ and x_[1][0] == "payload":
+                            sc_ = shared.unwrap_payload(x_[1])
+                            if sc_[0] == "call" and sc_[1].endswith("slice::split_first") and sc_[2]:
+                                return sc_[2][0]
+                        return None
+                    P0, P1 = split_of(first, "0"), split_of(coll, "1")
+                    if not is_first and P0 is not None and P1 is not None and norm(P0) == norm(P1):
+                        is_first, coll = True, P0
                     if is_first:
                         is_any = t[1].split("::")[-1] == "any"
                         if is_any and not EQ[res[1]]:
